@@ -90,6 +90,23 @@ def any_selector(draw, rows, cols, max_list=3, dups=False):
     return rect_selector(draw, rows, cols, r0, h, c0, w)
 
 
+def list_selector(draw, rows, cols, n, world=None, pi=None):
+    """A list naming n distinct wells (non-empty ones first when a world is given, so that the request is feasible)."""
+    nr, nc = len(rows), len(cols)
+    coords = [(r, c) for r in range(nr) for c in range(nc)]
+    order = draw(st.permutations(coords))
+    if world is not None:
+        v = world.pool[pi].view
+        order = sorted(order, key=lambda rc: not _nonempty(world, v['wells'][rc[0]][rc[1]]))
+    items = []
+    for r, c in order[:n]:
+        if draw(st.booleans()):
+            items.append({'t': 'wstr', 'r': rows[r], 'c': cols[c]})
+        else:
+            items.append({'t': 'wtup', 'r': idx_spelling(draw, r, rows), 'c': idx_spelling(draw, c, cols)})
+    return {'t': 'list', 'items': items}
+
+
 # ------------------------------------------------------------------------------------------------ constructors
 
 def gen_container(world, draw, profile):
@@ -340,6 +357,13 @@ def gen_transfer(world, draw, profile):
             else:
                 src = region_ref(world, draw, p1)
                 dst = region_ref(world, draw, p2)
+                if nr1 * nc1 >= 2 and nr2 * nc2 >= 2 and max(nr1 * nc1, nr2 * nc2) >= 3 and draw(st.booleans()):
+                    # two lists of wells of different lengths (>= 2 each): no pairing rule covers them
+                    n1 = draw(st.integers(2, min(4, nr1 * nc1)))
+                    n2 = draw(st.sampled_from([k for k in range(2, min(4, nr2 * nc2) + 1) if k != n1] or [0]))
+                    if n2:
+                        src = {'i': p1, 'sel': list_selector(draw, v1['rows'], v1['cols'], n1, world, p1)}
+                        dst = {'i': p2, 'sel': list_selector(draw, v2['rows'], v2['cols'], n2)}
     if form == 'same':
         p = pick_p(True)
         v = world.pool[p].view
